@@ -9,7 +9,7 @@ THEOREMS = [
     "Feox.C16.accounting", "Feox.C16.hit_is_own_generation", "Feox.C16.large_values_rejected",
     "Feox.C16.retired_generation_never_replaces", "Feox.C16.replace_needs_newer", "Feox.C16.sweepBucket_size",
     "Feox.C16.insert_inv", "Feox.C16.get_inv", "Feox.C16.remove_inv", "Feox.C16.evict_inv", "Feox.C16.clear_inv",
-    "Feox.C16.adjust_inv", "Feox.C16.real_bucket_count_positive",
+    "Feox.C16.adjust_inv", "Feox.C16.real_bucket_count_positive", "Feox.C16.second_chance", "Feox.C16.evicted_was_unreferenced",
 ]
 
 
